@@ -50,14 +50,9 @@ BeginCall == /\ phase = "idle" /\ ci <= nc
 TokEv == /\ phase = "tok" /\ ei <= Len(evs)
          /\ acc' = TokEvent(cfg, acc, evs[ei], carry.clock) /\ ei' = ei + 1
          /\ UNCHANGED <<cfg, piece, cuts, nc, phase, ci, evs, carry, toks, ti, d, inf>>
-(* as built, the bar is closed only when the clock is strictly inside a bar; the intended design also covers the
-   instants after the last tokenised event (a note that is still sounding when the clock sits on a bar line) *)
-LastInstant(k) == MaxS({0} \cup {IF evs[j].kind = "note" THEN evs[j].t + evs[j].val ELSE evs[j].t : j \in DOMAIN evs}) + carry.clock
-CloseCall(a, k) ==
-    IF "NoCloseWhenClockOnBarline" \in Defect THEN EndCall(cfg, a)
-    ELSE LET r == Rest(cfg, a.st, a.out, LastInstant(k) - a.st.clock)        \* only even remainders occur for valid pieces
-             b == [st |-> r.st, out |-> r.out, ok |-> a.ok /\ r.ok]
-         IN EndCall(cfg, b)
+(* the earlier as-built rule closed the bar only when the clock was strictly inside one; it is kept as a named defect *)
+LastInstant(k) == LastInstantOf(evs) + carry.clock
+CloseCall(a, k) == IF "NoCloseWhenClockOnBarline" \in Defect THEN CloseBarOnly(cfg, a) ELSE EndCall(cfg, a, LastInstant(k))
 EndCallA == /\ phase = "tok" /\ ei > Len(evs)
             /\ LET fin == CloseCall(acc, ci) IN
                /\ carry' = fin.st /\ toks' = toks \o fin.out /\ acc' = fin
